@@ -631,51 +631,84 @@ func checkAuthzScreen(e *Engine, r *Report) {
 			r.Check(okE, "checkDisabledMsgs › MsgGrant rejects", e.Pos(test.Pos()), "disabled URL returns a non-nil error", "a disabled authorization URL does not lead to a non-nil error return")
 		}
 	}
-	// (4) default arm: nested message URL test
+	// (4) default arm: nested message URL test (in checkDisabledMsgs or in a single-site private helper whose error is propagated)
 	{
 		var test *ssa.Call
-		for _, c := range callsIn(fn, false, isDisabledCall) {
-			cc := c.(*ssa.Call)
-			sl := backSlice(cc.Call.Args[len(cc.Call.Args)-1], SliceOpts{})
-			if sl.HasCall(CallSpec{pkgSdkTypes, "", "MsgTypeURL"}) {
-				test = cc
+		tfn := fn
+		reg4 := e.privateRegion(fn)
+		for _, f := range reg4.Fns {
+			if f != fn && !reg4.ErrorPropagated(reg4.site[f]) {
+				continue
+			}
+			for _, c := range callsIn(f, false, isDisabledCall) {
+				cc := c.(*ssa.Call)
+				sl := backSlice(cc.Call.Args[len(cc.Call.Args)-1], SliceOpts{})
+				if sl.HasCall(CallSpec{pkgSdkTypes, "", "MsgTypeURL"}) {
+					test, tfn = cc, f
+				}
 			}
 		}
 		if test == nil {
 			r.Bad("checkDisabledMsgs › nested url test", pos, "no test of sdk.MsgTypeURL(msg) against the disabled list for nested messages")
 		} else {
-			gs := boolCallGuards(fn, false, func(c *ssa.Call) bool { return c == test })
+			gs := boolCallGuards(tfn, false, func(c *ssa.Call) bool { return c == test })
 			okE := false
 			for _, g := range gs {
-				if eg, ok := errorExitGuard(fn, g.If, func(ssa.CallInstruction) bool { return false }); ok && eg.Survive == g.Survive {
+				if eg, ok := errorExitGuard(tfn, g.If, func(ssa.CallInstruction) bool { return false }); ok && eg.Survive == g.Survive {
 					okE = true
 				}
 			}
 			r.Check(okE, "checkDisabledMsgs › nested rejects", e.Pos(test.Pos()), "disabled nested URL returns a non-nil error", "a disabled nested message URL does not lead to a non-nil error return")
 			// the only condition under which the test is skipped is nestedLvl <= 1 (top level)
+			isLvl := func(v ssa.Value) bool { return reg4.Resolve(v) == ssa.Value(lvl) }
 			okLvl := true
-			for _, i := range ifs(fn) {
+			for _, i := range ifs(tfn) {
 				if !i.Block().Dominates(test.Block()) || i.Block() == test.Block() {
 					continue
 				}
-				// ifs between the default arm and the test
 				b, isB := i.Cond.(*ssa.BinOp)
-				if isB && (b.X == ssa.Value(lvl) || b.Y == ssa.Value(lvl)) && (b.Op == token.GTR || b.Op == token.GEQ) {
-					var cst ssa.Value = b.Y
-					if b.Y == ssa.Value(lvl) {
-						cst = b.X
+				if !isB || !(isLvl(b.X) || isLvl(b.Y)) {
+					continue
+				}
+				var cst ssa.Value = b.Y
+				op := b.Op
+				if isLvl(b.Y) {
+					cst = b.X
+					switch op { // c OP lvl ⇒ lvl OP' c
+					case token.LSS:
+						op = token.GTR
+					case token.LEQ:
+						op = token.GEQ
+					case token.GTR:
+						op = token.LSS
+					case token.GEQ:
+						op = token.LEQ
 					}
-					c, isC := constInt(cst)
-					if !isC {
+				}
+				c, isC := constInt(cst)
+				if !isC {
+					okLvl = false
+					continue
+				}
+				// the test must run for every nested level (>= 2): which values of lvl reach it?
+				bad := false
+				testOnTrue := blockDominatedByEdge(tfn, test.Block(), Guard{If: i, Survive: 0})
+				switch op {
+				case token.GTR: // lvl > c
+					bad = testOnTrue && c > 1 || !testOnTrue
+				case token.GEQ: // lvl >= c
+					bad = testOnTrue && c > 2 || !testOnTrue
+				case token.LEQ: // lvl <= c: the test must be on the false side, and c <= 1
+					bad = testOnTrue || c > 1
+				case token.LSS: // lvl < c
+					bad = testOnTrue || c > 2
+				default:
+					continue
+				}
+				if bad {
+					// only the depth-limit guard may compare with a larger constant; it is not a skip of the test
+					if _, isG := errorExitGuard(tfn, i, func(c ssa.CallInstruction) bool { return c == ssa.CallInstruction(test) }); !isG {
 						okLvl = false
-						continue
-					}
-					// nestedLvl > c  must be true for every nested level (>=2): c <= 1 for GTR, c <= 2 for GEQ
-					if (b.Op == token.GTR && c > 1) || (b.Op == token.GEQ && c > 2) {
-						// only the depth-limit guard may compare with a larger constant; it is not a skip of the test
-						if _, isG := errorExitGuard(fn, i, func(c ssa.CallInstruction) bool { return c == ssa.CallInstruction(test) }); !isG {
-							okLvl = false
-						}
 					}
 				}
 			}
